@@ -8,6 +8,7 @@
 //@include inc/message_types.rs
 //@include inc/txid_types.rs
 //@include inc/world_core.rs
+//@include inc/world_mid_standin.rs
 //@include inc/blen.rs
 //@include inc/lookup_body.rs
 } // verus!
